@@ -45,6 +45,11 @@ fn prepared_all(a: &G, b: &G) -> Result<Vec<String>, String> {
         // concrete-typed prepared operand
         v.push(with_g!(a, x => { let px = PreparedGeometry::from(x); im_string(&px.relate(&pb)) }));
         v.push(with_g!(b, y => { let py = PreparedGeometry::from(y); im_string(&pa.relate(&py)) }));
+        // the owning form: prepared from the value, used, and handed back unchanged by into_geometry
+        let po = PreparedGeometry::from(ga.clone());
+        v.push(im_string(&po.relate(&pb)));
+        v.push(im_string(&po.relate(&gb)));
+        v.push(if *po.geometry() == ga && po.into_geometry() == ga { im_string(&ga.relate(&gb)) } else { "into_geometry / geometry() differ from the geometry prepared".to_string() });
         v
     })
 }
